@@ -876,8 +876,8 @@ def check_forest(case, R):
                 if mode is False and multi:
                     R.check(simple, "read:no-warning", f"{what} p={p} base={base}: several roots but no 'not a simple tree' warning; warnings={msgs}",
                             f"{what}:no-warning:{kbase}")
-                elif good:
-                    R.check(not simple, "read:spurious-warning", f"{what} p={p} base={base}: repaired tree is connected and single-rooted but "
+                elif good:  # repaired, or a single-root file to begin with
+                    R.check(not simple, "read:spurious-warning", f"{what} p={p} base={base}: the returned tree is connected and single-rooted but "
                             f"'not a simple tree' was warned; warnings={msgs}", f"{what}:spurious-warning:{kbase}")
                 R.check(comments == [" generated"], "read:comments", f"{what}: comments {comments}", f"{what}:comments")
 
